@@ -97,9 +97,10 @@ fn nontrivial(c: &AggCase, obs: &mut Obs) {
         Enc::OptI32 => "option_i32",
         Enc::F32 => "f32",
     });
-    obs.class(match c.src % 3 {
+    obs.class(match c.src % 4 {
         0 => "source=owned_vec",
         1 => "source=titer",
+        3 => "source=filtered_inexact_hint",
         _ => "source=vecdeque",
     });
 }
@@ -107,7 +108,13 @@ fn nontrivial(c: &AggCase, obs: &mut Obs) {
 /// the iterator source: owned Vec / borrowed titer / VecDeque
 macro_rules! with_src {
     ($c:expr, $d:expr, |$it:ident| $body:expr) => {
-        match $c.src % 3 {
+        match $c.src % 4 {
+            3 => {
+                // a source whose size hint is only an upper bound (every second index of a doubled range)
+                let v2 = $d.clone();
+                let $it = (0..2 * v2.len()).filter(|i| i % 2 == 0).map(|i| v2[i / 2].clone());
+                $body
+            },
             0 => {
                 let $it = $d.clone().into_iter();
                 $body
@@ -609,7 +616,7 @@ fn main() {
     let _ = Tri::Any;
     let mut p = Property::new(
         "C11",
-        "cases = (pair of series of length 0..=24 (thorough ..=200; `long:` sub-properties 65..=400 in both tiers) from all value classes (incl. constant, heavy ties) x null patterns (incl. all-null), element type f64 / Option<f64> / i32 / Option<i32> / f32, min_periods 0..=len+1, iterator source {owned Vec, borrowed titer, VecDeque}, a permutation, a probe value) per function group; oracle = textbook definition on the non-null (pairwise-complete) elements with the null law 'null exactly when valid count < max(min_periods, intrinsic minimum) or the statistic is undefined', tolerance DESIGN 5.9 (H = 0) and EPS band 5.6; symmetric functions are re-evaluated on a permutation of the input against the same (permutation-invariant) reference. \
+        "cases = (pair of series of length 0..=24 (thorough ..=200; `long:` sub-properties 65..=400 in both tiers) from all value classes (incl. constant, heavy ties) x null patterns (incl. all-null), element type f64 / Option<f64> / i32 / Option<i32> / f32, min_periods 0..=len+1, iterator source {owned Vec, borrowed titer, VecDeque, a filtered source whose size hint is only an upper bound}, a permutation, a probe value) per function group; oracle = textbook definition on the non-null (pairwise-complete) elements with the null law 'null exactly when valid count < max(min_periods, intrinsic minimum) or the statistic is undefined', tolerance DESIGN 5.9 (H = 0) and EPS band 5.6; symmetric functions are re-evaluated on a permutation of the input against the same (permutation-invariant) reference. \
          Non-trivial = >= 4 valid elements, a tie, and (for nullable element types) a null not in first position; distinct = distinct serialised cases",
     )
     .assume("plain AggBasic functions receive null-free data (DESIGN 5.1)")
